@@ -11,7 +11,7 @@ RULE = ("2-8 operations, one per thread, drawn from {construct an evaluator from
         "chain, 48 groups, nested conditionals), call a shared evaluator, recompile a shared evaluator old->new while others "
         "call it} and executed under a HARNESS-OWNED schedule: a generated list of (thread, run length in traced lines 1-300) "
         "hand-offs (cycled until the run ends; run lengths up to 5000) enforced through sys.settrace, so an execution is a pure function of (operations, schedule) and shrinks / "
-        "replays exactly; plus single-preemption sweeps (operation A is pre-empted once after L traced lines, B runs to completion, A finishes) for every L in the last 260 / first 24 lines of A (quick) or all lines (thorough) over construct||construct, recompile||call and call||recompile pairs. Thorough tier adds real pre-emptive threads (2-16, switch interval 1 microsecond). Oracle: every "
+        "replays exactly; plus single-preemption sweeps (operation A is pre-empted once after L traced lines, B runs to completion, A finishes) for every L in the last 260 / first 24 lines of A (quick) or all lines (thorough) over construct||construct, recompile||call and call||recompile pairs, and double sweeps (L, M) over two concurrent calls on evaluators with different weights. Thorough tier adds real pre-emptive threads (2-16, switch interval 1 microsecond). Oracle: every "
         "constructed evaluator behaves on a probe set like the one built alone; every call equals the sequential result; a "
         "call racing a recompile gives old(x) or new(x), never an exception; after the run a recompiled evaluator equals a "
         "fresh one of the new text. Non-trivial = schedule with >=1 hand-off while >=2 threads were mid-operation and at least "
@@ -121,11 +121,13 @@ def _judge_results(case, results, shared_evs, how):
                 if got not in allowed:
                     viol.append("%s: call in thread %d on shared evaluator %d gave %r; sequentially (old or new text) %r"
                                 % (how, i, op["ev"], got, allowed))
-    for e, ev in enumerate(shared_evs):
+    order = list(enumerate(shared_evs))
+    for e, ev in order[::-1] + order:
         want = _seq(targets.get(e, case["shared"][e]))
         got = [sut.call(ev, p) for p in PROBES]
         if got != want:
             viol.append("%s: after the run shared evaluator %d does not behave like a fresh evaluator of its last text" % (how, e))
+            break
     return viol
 
 
@@ -180,6 +182,27 @@ def sweep_pairs(ctx):
     pairs.append(([0], {"k": "recompile", "ev": 0, "src": 1}, {"k": "construct", "src": 4}))
     pairs.append(([1], {"k": "construct", "src": 0}, {"k": "recompile", "ev": 0, "src": 5}))
     return [p for i, p in enumerate(pairs) if i % ctx.nshards == ctx.shard % max(1, min(ctx.nshards, len(pairs)))] if ctx.nshards > 1 else pairs
+
+
+def call_call_cases(ctx):
+    """two concurrent calls on evaluators with different weights: A is pre-empted after L lines, B runs its first call
+    (M lines) and is pre-empted between / inside its calls, A finishes, B finishes - sweeping L and M"""
+    combos = [([0, 3], 0, 1), ([1, 2], 0, 5), ([4, 0], 2, 1), ([3, 3], 1, 4), ([1, 1], 0, 1)]
+    if ctx.nshards > 1:
+        combos = [c for i, c in enumerate(combos) if i % ctx.nshards == ctx.shard % len(combos)] or combos[:1]
+    elif ctx.quick:
+        combos = combos[:3]
+    for shared, pa, pb in combos:
+        a = {"k": "call", "ev": 0, "probe": pa, "times": 1}
+        b = {"k": "call", "ev": 1, "probe": pb, "times": 2}
+        ta = _lines_alone({"shared": shared, "ops": [a], "schedule": []})
+        tb1 = _lines_alone({"shared": shared[::-1], "ops": [dict(b, ev=0, times=1)], "schedule": []})
+        tb = _lines_alone({"shared": shared[::-1], "ops": [dict(b, ev=0)], "schedule": []})
+        ms = sorted(set(range(max(1, tb1 - 3), tb1 + 4))) if ctx.quick else list(range(1, tb + 1))
+        for L in range(1, ta + 1):
+            for m in ms:
+                yield {"shared": shared, "ops": [a, b], "cycle": False, "sweep": True,
+                       "schedule": [[0, L], [1, m], [0, 10 ** 9], [1, 10 ** 9]]}
 
 
 def sweep_cases(ctx):
@@ -244,6 +267,9 @@ def run(ctx, rec):
     if rec.violations:
         return
     runner.direct_run(ctx, rec, "single-preemption-sweeps", sweep_cases(ctx), judge)
+    if rec.violations:
+        return
+    runner.direct_run(ctx, rec, "call-call-double-sweeps", call_call_cases(ctx), judge)
     if rec.violations or ctx.quick:
         return
 
